@@ -32,13 +32,14 @@ class Engine(Interp, ExprMixin, StmtMixin, CallMixin, MethodMixin):
         self.revealed = set()
         self.scoped = []
         self.pure_modules = {'builtins', 'operator', 're', 'os', 'posixpath', 'typing', 'itertools', 'functools', 'collections', 'enum', 'string'}
+        self.effect_modules = {'mesonbuild.mlog'}
         self.init_specials()
 
     # ------------------------------------------------------------------ names in contract text
     def contract_names_for(self, c, mod):
         names = CallMixin.contract_names_for(self, c, mod)
         import operator as _op
-        names.update({'Int': api.Int, 'Str': api.Str, 'Bool': api.Bool, 'operator': _op})
+        names.update({'Int': api.Int, 'Str': api.Str, 'Bool': api.Bool, 'Obj': api.Obj, 'operator': _op})
         return names
 
     # ------------------------------------------------------------------ one contract
@@ -274,13 +275,18 @@ class Engine(Interp, ExprMixin, StmtMixin, CallMixin, MethodMixin):
     def same(self, a, b):
         """structural sameness used by frame obligations"""
         if isinstance(a, VBox) and isinstance(b, VBox):
+            if a.term is None or b.term is None:
+                return a.term is None and b.term is None
             return a.term == b.term
         if isinstance(a, VStruct) and isinstance(b, VStruct):
             return self.land(*[self.same(a.f[k], b.f.get(k)) for k in a.f])
         if isinstance(a, VOpt) or isinstance(b, VOpt) or a is None or b is None:
-            return self.eq(a, b) if not (isinstance(a, VOpt) and isinstance(a.val, VStruct)) else self.land(
-                self.as_opt(a).none == self.as_opt(b).none if z3.is_expr(self.as_opt(a).none) or z3.is_expr(self.as_opt(b).none) else self.as_opt(a).none == self.as_opt(b).none,
-                self.lor(self.as_opt(a).none, self.same(self.as_opt(a).val, self.as_opt(b).val)))
+            oa, ob = self.as_opt(a), self.as_opt(b)
+            na = oa.none if z3.is_expr(oa.none) else z3.BoolVal(bool(oa.none))
+            nb = ob.none if z3.is_expr(ob.none) else z3.BoolVal(bool(ob.none))
+            if oa.val is None or ob.val is None:
+                return z3.And(na, nb)
+            return self.land(na == nb, self.lor(na, self.same(oa.val, ob.val)))
         if isinstance(a, VAbs) and isinstance(b, VAbs):
             return a.term == b.term
         if isinstance(a, VObj) and isinstance(b, VObj):
